@@ -11,9 +11,16 @@ use serde_json::json;
 const SIZES: [u64; 8] = [0, 8, 16, 64, 0x100, 0x1000, 0x1001, 0x2000];
 const LAYOUTS: [&str; 4] = ["code@0x1000", "elf@0x400000", "areas-at-0x1000-0x3000", "after-handle_syscalls"];
 
+const SHAPES: usize = 10;
+
 fn make_string(shape: usize, tag: &str) -> String {
     let lens = [0usize, 1, 7, 8, 15, 16, 17, 300];
-    let n = lens[shape % 8];
+    let k = shape % SHAPES;
+    if k == 8 {
+        // multi-byte characters: 3 chars, 9 bytes per round (byte length != char count)
+        return format!("{tag}=\u{e4}\u{20ac}\u{1d11e}\u{e4}\u{20ac}\u{1d11e}");
+    }
+    let n = if k == 9 { 0x1001 } else { lens[k] }; // 9: longer than a page
     let mut s = String::new();
     let pat: Vec<char> = tag.chars().chain("=abcdefghijklmnopqrstuvwxyz0123456789".chars()).collect();
     for i in 0..n {
@@ -218,7 +225,7 @@ fn gen(maxc: usize) -> impl Fn(&mut EnumCtx) + Sync {
     move |e: &mut EnumCtx| {
         for argc in 0..=maxc {
             for envc in 0..=maxc {
-                for pattern in 0..8 {
+                for pattern in 0..SHAPES {
                     for size in SIZES {
                         for layout in 0..LAYOUTS.len() {
                             if !e.next() {
@@ -265,7 +272,7 @@ pub fn run(tier: Tier) -> i32 {
         return crate::common::finish_replay("C17", &art, &|ws| confirm_enum(&o, &g, ws));
     }
     let out = run_enum(&o, &g);
-    enum_evidence(&mut run, &out, "one case = (argc, envc in 0..=N, one of 8 rotations of the string shapes {empty, 1, 7, 8, 15, 16, 17, 300 bytes}, stack size in {0, 8, 16, 64, 0x100, 0x1000, 0x1001, 0x2000}, one of 4 layouts); the frame is read back by executing guest `pop rax` instructions and by following the pointers; areas from the structured view; states = distinct configurations; distinct_nontrivial = distinct (configuration, number of violated clauses)");
+    enum_evidence(&mut run, &out, "one case = (argc, envc in 0..=N, one of 10 rotations of the string shapes {empty, 1, 7, 8, 15, 16, 17, 300 bytes, multi-byte UTF-8 characters, 0x1001 bytes}, stack size in {0, 8, 16, 64, 0x100, 0x1000, 0x1001, 0x2000}, one of 4 layouts); the frame is read back by executing guest `pop rax` instructions and by following the pointers; areas from the structured view; states = distinct configurations; distinct_nontrivial = distinct (configuration, number of violated clauses)");
     run.cov("max_argc_envc", json!(maxc));
     run.guard("cases", out.cases >= 5_000 || out.capped, format!("{} configurations", out.cases));
     run.assume("<= 16 bytes of alignment slack accepted for the space below RSP; contents of padding not checked");
